@@ -422,4 +422,4 @@ def r06H(F):
 	import C11
 	return C11.r11H(F, '06.H')
 RULES.append(('06.H', 'claims and contentious outpoints of a revoked commitment are stamped with the confirming block, not the tip (11.H under C06)', r06H))
-RULES.append(('06.N', 'arithmetic census: per reviewed function the number of operations per (group: add/sub, mul, div, rem, shift, bit, min, max, div_ceil ...; flavour: plain / checked / saturating / wrapping) is unchanged - a dropped or added `+ 1`, a rounding direction, saturating for checked, min for max (rules/arith.py; value arithmetic itself is not decided)', lambda F: arith.for_property(F, 'C06', '06.N')))
+RULES.append(('06.N', 'arithmetic census: per reviewed function the set of operation kinds (group: add/sub, mul, div, rem, shift, bit, min, max, div_ceil ...; flavour: plain / checked / saturating / wrapping) keeps its kinds: no reviewed function lost or gained a kind of arithmetic altogether - a rounding direction (`/` for div_ceil), saturating for checked, min for max (rules/arith.py; counts and value arithmetic itself are not judged)', lambda F: arith.for_property(F, 'C06', '06.N')))
